@@ -141,6 +141,9 @@ class ExhaustiveGateRemovalPass(BasePass):
                         expanded_circuits.append(copy)
                         circuits_seen.add(structure)
 
+            if len(expanded_circuits) == 0:
+                break
+
             # Instantiate them all
             instantiated_circuits = await get_runtime().map(
                 Circuit.instantiate,
